@@ -1,5 +1,7 @@
 import NibabelModel.Model.C14
 import NibabelModel.Lemmas.C14
+import NibabelModel.Lemmas.C14_Progress
+import NibabelModel.Props.C06
 /-! Props/C14 — the property theorems for C14 "concurrent reads through a shared file handle never mix up
     data" (statements + short proofs; the work is in Lemmas/C14.lean).
 
@@ -230,6 +232,349 @@ theorem nibabel_reads_correct (L : Nat) (file : List Byte) (pieces : Tid → Lis
   · rw [← e]; exact reads_correct L file s0 hr sched t
   · rw [← e]; exact reads_complete L file s0 hr sched t hfin
 
+/-! ### deadlock freedom and completion (progress) -/
+
+theorem pinv_init (L : Nat) (progs : Tid → List Action) (nh : Nat) (p0 : Nat → Nat)
+    (h : ∀ t, good L 0 false (progs t) = true) : PInv L (State.init progs nh p0) :=
+  ⟨fun u => by simpa [State.init, dep] using h u, fun u hu => by simp [State.init] at hu⟩
+
+/-- `no_deadlock`: programs that take only lock `L`, properly nested (RLock re-entrancy allowed), and read the
+    opener slot only after testing/filling it: in EVERY state reachable under ANY schedule, if some thread has
+    not finished then some unfinished thread is enabled — its next step consumes one of its actions (it is not
+    blocked on the lock, does not release a lock it does not own, does not find `_opener` missing).  A thread
+    blocked on `acquire L` implies `L` is owned by a thread that is inside its critical section and can itself
+    always step. -/
+theorem no_deadlock (L : Nat) (file : List Byte) (progs : Tid → List Action) (nh : Nat) (p0 : Nat → Nat)
+    (hg : ∀ t, good L 0 false (progs t) = true) (sched : List Tid) (u : Tid)
+    (hu : ((runS file (State.init progs nh p0) sched).threads u).prog ≠ []) :
+    ∃ v, ((runS file (State.init progs nh p0) sched).threads v).prog ≠ [] ∧
+      Progresses file (runS file (State.init progs nh p0) sched) v :=
+  progress L file _ (pinv_runS L file sched _ (pinv_init L progs nh p0 hg)) u hu
+
+/-- `all_threads_complete`: `n` threads (all other programs empty); a schedule made of blocks, each block
+    granting every thread `< n` at least one step (any order, any repetitions, other ids allowed), with at
+    least as many blocks as there are actions in total: every thread finishes. -/
+theorem all_threads_complete (L : Nat) (file : List Byte) (progs : Tid → List Action) (nh : Nat) (p0 : Nat → Nat)
+    (n : Nat) (hg : ∀ t, good L 0 false (progs t) = true) (hb : ∀ t, n ≤ t → progs t = [])
+    (blocks : List (List Tid)) (hfair : ∀ b ∈ blocks, ∀ t, t < n → t ∈ b)
+    (hlen : work n (State.init progs nh p0) ≤ blocks.length) (t : Tid) :
+    ((runS file (State.init progs nh p0) blocks.flatten).threads t).prog = [] := by
+  have hb0 : Bounded n (State.init progs nh p0) := fun t ht => by simpa [State.init] using hb t ht
+  have h0 := fair_completes L file n blocks _ (pinv_init L progs nh p0 hg) hb0 hfair hlen
+  by_cases ht : t < n
+  · exact work_zero n _ h0 t ht
+  · exact bounded_runS file n _ _ hb0 t (Nat.le_of_not_lt ht)
+
+/-- round-robin `0,1,…,n-1` repeated `k ≥ total number of actions` times finishes every thread -/
+theorem round_robin_completes (L : Nat) (file : List Byte) (progs : Tid → List Action) (nh : Nat)
+    (p0 : Nat → Nat) (n k : Nat) (hg : ∀ t, good L 0 false (progs t) = true) (hb : ∀ t, n ≤ t → progs t = [])
+    (hk : work n (State.init progs nh p0) ≤ k) (t : Tid) :
+    ((runS file (State.init progs nh p0) (List.replicate k (List.range n)).flatten).threads t).prog = [] := by
+  apply all_threads_complete L file progs nh p0 n hg hb
+  · intro b hb' t ht; rw [List.eq_of_mem_replicate hb']; exact List.mem_range.mpr ht
+  · simpa using hk
+
+/-- completion AND correctness: under a fair schedule every thread finishes having seen exactly its
+    single-threaded file events -/
+theorem fair_run_correct (L : Nat) (file : List Byte) (progs : Tid → List Action) (nh : Nat) (p0 : Nat → Nat)
+    (n : Nat) (hwf : ∀ t, wf L 0 false (progs t) = true) (hg : ∀ t, good L 0 false (progs t) = true)
+    (hb : ∀ t, n ≤ t → progs t = [])
+    (blocks : List (List Tid)) (hfair : ∀ b ∈ blocks, ∀ t, t < n → t ∈ b)
+    (hlen : work n (State.init progs nh p0) ≤ blocks.length) (t : Tid) :
+    dataProj t (trace file (State.init progs nh p0) blocks.flatten) = solo file (p0 0) (progs t) := by
+  have hfin := all_threads_complete L file progs nh p0 n hg hb blocks hfair hlen t
+  have := reads_complete L file (State.init progs nh p0) ⟨progs, nh, p0, [], hwf, rfl⟩ blocks.flatten t hfin
+  simpa [State.init] using this
+
+theorem good_lockedSegs (L : Nat) (ss : Bool) (segs : List (Nat × Nat)) (p : List Action) :
+    good L 0 ss (lockedSegs L segs ++ p) = good L 0 ss p := by
+  induction segs with
+  | nil => simp [lockedSegs]
+  | cons sg r ih =>
+    have : lockedSegs L (sg :: r) = [.acquire L, .seek sg.1, .read sg.2, .release L] ++ lockedSegs L r := by
+      simp [lockedSegs]
+    rw [this]
+    simp only [lockedSegs] at ih
+    simp [good, lockedSegs, ih]
+
+theorem good_lockedWhole (L : Nat) (ss m r : Bool) (off n : Nat) (p : List Action) :
+    good L 0 ss (lockedWhole L m r off n ++ p) = good L 0 ss p := by
+  cases m <;> cases r <;> simp [lockedWhole, good]
+
+theorem good_getFileobjPersist (L : Nat) (ss : Bool) (p : List Action) :
+    good L 0 ss (getFileobjPersist ++ p) = good L 0 true p := by
+  simp [getFileobjPersist, good, Action.slotOnly]
+
+theorem good_pieces (L : Nat) (ps : List Piece) : ∀ ss, good L 0 ss (ps.flatMap (Piece.prog L)) = true := by
+  induction ps with
+  | nil => intro ss; simp [good]
+  | cons a r ih =>
+    intro ss
+    simp only [List.flatMap_cons]
+    cases a <;> simp only [Piece.prog, copy_shares_lock]
+    · rw [good_lockedSegs]; exact ih ss
+    · rw [good_lockedWhole]; exact ih ss
+    · rw [good_getFileobjPersist]; exact ih true
+
+/-- `nibabel_all_complete`: `n` threads performing any lists of nibabel read requests (sliced, whole-array,
+    lazily opened persistent opener, through the proxy or its `copy()`): no deadlock is possible, and under
+    every fair schedule with enough blocks every thread finishes, having read exactly `file[o, o+n)` for each
+    of its segments, in order. -/
+theorem nibabel_all_complete (L : Nat) (file : List Byte) (pieces : Tid → List Piece) (nh : Nat)
+    (p0 : Nat → Nat) (n : Nat) (hb : ∀ t, n ≤ t → pieces t = [])
+    (blocks : List (List Tid)) (hfair : ∀ b ∈ blocks, ∀ t, t < n → t ∈ b)
+    (hlen : work n (State.init (fun u => (pieces u).flatMap (Piece.prog L)) nh p0) ≤ blocks.length) (t : Tid) :
+    let s0 := State.init (fun u => (pieces u).flatMap (Piece.prog L)) nh p0
+    ((runS file s0 blocks.flatten).threads t).prog = [] ∧
+    dataProj t (trace file s0 blocks.flatten) = (pieces t).flatMap (Piece.events file) := by
+  intro s0
+  have hfin := all_threads_complete L file (fun u => (pieces u).flatMap (Piece.prog L)) nh p0 n
+    (fun u => good_pieces L (pieces u) false) (fun u hu => by simp [hb u hu]) blocks hfair hlen t
+  exact ⟨hfin, (nibabel_reads_correct L file pieces nh p0 blocks.flatten t).2 hfin⟩
+
+/-! ### end to end: the arrays assembled from the reads a thread actually performed -/
+
+def DEv.readData : DEv → Option (List Byte)
+  | .read _ d => some d
+  | _ => none
+
+theorem readsOf_eq (t : Tid) (tr : List (Tid × Ev)) :
+    readsOf t tr = (dataProj t tr).filterMap DEv.readData := by
+  unfold readsOf dataProj
+  rw [List.filterMap_filterMap]
+  congr 1
+  funext x
+  by_cases hx : x.1 = t
+  · simp only [hx, if_true]
+    cases x.2 <;> simp [Ev.data, DEv.readData]
+  · simp [hx]
+
+/-- the read data a piece delivers single-threaded: `file[o, o+n)` per segment -/
+def Piece.reads (file : List Byte) (p : Piece) : List (List Byte) := (p.events file).filterMap DEv.readData
+
+theorem segEvents_reads (file : List Byte) (segs : List (Nat × Nat)) :
+    (segEvents file segs).filterMap DEv.readData = segs.map (fun sg => slice file sg.1 sg.2) := by
+  induction segs with
+  | nil => simp [segEvents]
+  | cons sg r ih =>
+    simp only [segEvents, List.flatMap_cons] at ih ⊢
+    simp only [List.cons_append, List.nil_append, List.filterMap_cons, DEv.readData, List.map_cons, ih]
+
+theorem wholeEvents_reads (file : List Byte) (m r : Bool) (off n : Nat) :
+    (wholeEvents file m r off n).filterMap DEv.readData = if r then [slice file off n] else [] := by
+  cases m <;> cases r <;> simp [wholeEvents, List.filterMap_cons, DEv.readData]
+
+theorem filterMap_flatMap_reads (file : List Byte) (ps : List Piece) :
+    (ps.flatMap (Piece.events file)).filterMap DEv.readData = ps.flatMap (Piece.reads file) := by
+  induction ps with
+  | nil => rfl
+  | cons a r ih => simp only [List.flatMap_cons, List.filterMap_append, ih, Piece.reads]
+
+/-- a request as executed: its program pieces, the number of reads it performs and its decoder -/
+structure Job where
+  pieces : List Piece
+  finish : List Byte → Res
+
+def Job.reads (file : List Byte) (j : Job) : List (List Byte) := j.pieces.flatMap (Piece.reads file)
+
+def Job.plan (L : Nat) (file : List Byte) (j : Job) : Plan :=
+  ⟨j.pieces.flatMap (Piece.prog L), (j.reads file).length, j.finish⟩
+
+/-- `results` hands every request exactly its own reads: when a thread delivered the single-threaded reads of
+    its jobs, each job's decoder is applied to that job's own bytes -/
+theorem results_jobs (L : Nat) (file : List Byte) (jobs : List Job) (extra : List (List Byte)) :
+    results (jobs.map (Job.plan L file)) (jobs.flatMap (Job.reads file) ++ extra)
+      = jobs.map (fun j => j.finish (j.reads file).flatten) := by
+  induction jobs with
+  | nil => simp [results]
+  | cons j r ih =>
+    simp only [List.map_cons, List.flatMap_cons, results, Job.plan, List.append_assoc]
+    have h1 : ¬ ((j.reads file ++ (r.flatMap (Job.reads file) ++ extra)).length < (j.reads file).length) := by
+      rw [List.length_append]; omega
+    rw [if_neg h1, List.take_left', List.drop_left']
+    · rw [ih]
+    · rfl
+    · rfl
+
+/-- END-TO-END (concurrency part): any number of threads, thread `t` executes the jobs `jobs t`; under ANY
+    schedule after which `t` has finished, the results assembled from the reads `t` actually performed are
+    the decoders applied to the single-threaded bytes `file[o, o+n)` of each job's own segments. -/
+theorem results_eq_single_threaded (L : Nat) (file : List Byte) (jobs : Tid → List Job) (nh : Nat)
+    (p0 : Nat → Nat) (sched : List Tid) (t : Tid) :
+    let s0 := State.init (fun u => (jobs u).flatMap (fun j => j.pieces.flatMap (Piece.prog L))) nh p0
+    ((runS file s0 sched).threads t).prog = [] →
+    results ((jobs t).map (Job.plan L file)) (readsOf t (trace file s0 sched))
+      = (jobs t).map (fun j => j.finish (j.reads file).flatten) := by
+  intro s0 hfin
+  have hflat : ∀ u, (jobs u).flatMap (fun j => j.pieces.flatMap (Piece.prog L))
+      = ((jobs u).flatMap (·.pieces)).flatMap (Piece.prog L) := by
+    intro u; rw [List.flatMap_assoc]
+  have h := (nibabel_reads_correct L file (fun u => (jobs u).flatMap (·.pieces)) nh p0 sched t).2
+  simp only [← hflat] at h
+  have h2 := h hfin
+  rw [readsOf_eq, h2, filterMap_flatMap_reads, List.flatMap_assoc]
+  have := results_jobs L file (jobs t) []
+  rw [List.append_nil] at this
+  exact this
+/-- value of stored element `q` as `decodeLE` reads it back from the test file (`q mod 256^isz`) -/
+def elemVal (isz q : Nat) : Nat :=
+  ((List.range isz).map (fun b => (q / 256 ^ b) % 256 * 256 ^ b)).foldl (· + ·) 0
+
+theorem foldl_add_zeros (l : List Nat) (h : ∀ x ∈ l, x = 0) : l.foldl (· + ·) 0 = 0 := by
+  induction l with
+  | nil => rfl
+  | cons a r ih =>
+    have ha : a = 0 := h a (by simp)
+    subst ha
+    simpa using ih (fun x hx => h x (by simp [hx]))
+
+theorem elemVal_zero (isz : Nat) : elemVal isz 0 = 0 := by
+  unfold elemVal
+  apply foldl_add_zeros
+  intro x hx
+  simp only [List.mem_map] at hx
+  obtain ⟨b, _, rfl⟩ := hx
+  simp
+
+/-- the bytes a sliced read delivers single-threaded -/
+def segBytes (file : List Byte) (segs : List (Nat × Nat)) : List Byte :=
+  (segs.map (fun sg => slice file sg.1 sg.2)).flatten
+
+theorem plan_sliced (c : Cfg) (L : Nat) (idx : List Nb.C06.IdxItem) (d : Nb.C06.SliceDefs)
+    (hw : isWhole idx c.shape = some false)
+    (hcalc : Nb.C06.calcSlicedefs (Nb.C06.thresholdHeuristic Gen.skipThresh) idx c.shape c.isz c.off c.order = .ok d) :
+    plan c ⟨L, false, some idx⟩ =
+      ⟨(if c.persist then getFileobjPersist else []) ++ lockedSegs L (natSegs d), (natSegs d).length,
+        finishSliced c d⟩ := by
+  unfold plan
+  simp only [hw, hcalc, wrapOuter]
+  simp
+
+theorem index_map {α β} [Inhabited α] [Inhabited β] (f : α → β) (hf : f default = default)
+    (a : Nb.C06.NdArr α) (sels : List Nb.C06.Sel) :
+    (Nb.C06.NdArr.index ⟨a.shape, a.data.map f⟩ sels) =
+      ⟨(a.index sels).shape, (a.index sels).data.map f⟩ := by
+  simp only [Nb.C06.NdArr.index, List.map_map]
+  congr 1
+  apply List.map_congr_left
+  intro q _
+  simp only [Function.comp, List.getD_eq_getElem?_getD, List.getElem?_map]
+  cases a.data[q]? <;> simp [hf]
+
+/-- END-TO-END (slicing part) — PARTIAL: the byte layer (how the file stores the elements and that
+    `decodeLE` reads them back) enters as the two hypotheses `hbytes`/`hdec`; everything else — segments,
+    read shape, post-slicing, C/F reordering, agreement with NumPy basic indexing — is proved by composing with
+    C06 (`fileslice_threshold_eq_numpy`).  If NumPy indexing of the stored array gives shape `sh` and element
+    numbers `l`, the decoder applied to the single-threaded bytes of the request's segments returns shape `sh`
+    and the VALUES of exactly those elements. -/
+theorem sliced_result_eq_numpy_partial (c : Cfg) (file : List Byte) (idx : List Nb.C06.IdxItem)
+    (d : Nb.C06.SliceDefs) (k : Nat) (sh l : List Nat)
+    (hv : ∀ s, Nb.C06.IdxItem.slice s ∈ idx → s.Valid) (hisz : 0 < c.isz)
+    (hlen : c.off + c.isz * c.shape.prod ≤ c.flen)
+    (hcalc : Nb.C06.calcSlicedefs (Nb.C06.thresholdHeuristic k) idx c.shape c.isz c.off c.order = .ok d)
+    (hnp : Nb.C06.npIndex idx c.shape c.order = .ok (sh, l))
+    (hbytes : (segBytes file (natSegs d)).length = d.readShape.foldl (· * ·) 1 * c.isz)
+    (hdec : decodeLE c.isz (segBytes file (natSegs d))
+              = (Nb.C06.segElems c.off c.isz d.segments).map (fun q => elemVal c.isz q.toNat)) :
+    finishSliced c d (segBytes file (natSegs d)) = .ok sh (l.map (elemVal c.isz)) := by
+  have hfs := Nb.C06.fileslice_threshold_eq_numpy k idx c.shape hv c.order c.isz c.off c.flen hisz hlen
+  rw [hnp] at hfs
+  unfold Nb.C06.fileslice at hfs
+  rw [hcalc] at hfs
+  simp only [bind, Except.bind, Except.map, pure, Except.pure] at hfs
+  unfold finishSliced
+  rw [if_neg (by simpa using hbytes), hdec]
+  split at hfs
+  · cases hfs
+  · split at hfs
+    · cases hfs
+    · cases hps : Nb.C06.postSels d.post d.readShape with
+      | error e => rw [hps] at hfs; cases hfs
+      | ok sels =>
+        rw [hps] at hfs
+        simp only [Except.ok.injEq, Prod.mk.injEq] at hfs
+        simp only []
+        have hm := index_map (fun (q : Int) => elemVal c.isz q.toNat) (by simp [elemVal_zero])
+          ⟨d.readShape, Nb.C06.segElems c.off c.isz d.segments⟩ sels
+        simp only [] at hm
+        rw [hm]
+        simp only [hfs.1, hfs.2, List.map_map]
+        congr 1
+
+/-- a sliced read request as nibabel executes it (proxy lock `L`, optionally the lazily opened opener) -/
+def slicedJob (c : Cfg) (d : Nb.C06.SliceDefs) : Job :=
+  ⟨(if c.persist then [Piece.openPersist] else []) ++ [Piece.segs false 0 (natSegs d)], finishSliced c d⟩
+
+/-- the job is exactly what the executable `plan` (the one the driver runs against the real code) produces -/
+theorem slicedJob_plan (c : Cfg) (L : Nat) (file : List Byte) (idx : List Nb.C06.IdxItem) (d : Nb.C06.SliceDefs)
+    (hw : isWhole idx c.shape = some false)
+    (hcalc : Nb.C06.calcSlicedefs (Nb.C06.thresholdHeuristic Gen.skipThresh) idx c.shape c.isz c.off c.order = .ok d) :
+    Job.plan L file (slicedJob c d) = plan c ⟨L, false, some idx⟩ := by
+  rw [plan_sliced c L idx d hw hcalc]
+  unfold Job.plan slicedJob Job.reads
+  cases c.persist <;>
+    simp [Piece.prog, Piece.lock, Piece.reads, Piece.events, segEvents_reads, natSegs]
+
+theorem slicedJob_bytes (c : Cfg) (file : List Byte) (d : Nb.C06.SliceDefs) :
+    ((slicedJob c d).reads file).flatten = segBytes file (natSegs d) := by
+  unfold slicedJob Job.reads segBytes
+  cases c.persist <;> simp [Piece.reads, Piece.events, segEvents_reads]
+
+/-- a sliced request together with what NumPy indexing of the stored array gives for it -/
+structure SReq where
+  idx : List Nb.C06.IdxItem
+  d   : Nb.C06.SliceDefs
+  sh  : List Nat
+  l   : List Nat
+
+/-- the request is well-formed for configuration `c`; `hbytes`/`hdec` are the byte-layer hypotheses -/
+structure SReq.OK (c : Cfg) (file : List Byte) (r : SReq) : Prop where
+  hv : ∀ s, Nb.C06.IdxItem.slice s ∈ r.idx → s.Valid
+  hw : isWhole r.idx c.shape = some false
+  hcalc : Nb.C06.calcSlicedefs (Nb.C06.thresholdHeuristic Gen.skipThresh) r.idx c.shape c.isz c.off c.order = .ok r.d
+  hnp : Nb.C06.npIndex r.idx c.shape c.order = .ok (r.sh, r.l)
+  hbytes : (segBytes file (natSegs r.d)).length = r.d.readShape.foldl (· * ·) 1 * c.isz
+  hdec : decodeLE c.isz (segBytes file (natSegs r.d))
+          = (Nb.C06.segElems c.off c.isz r.d.segments).map (fun q => elemVal c.isz q.toNat)
+
+/-- END-TO-END — PARTIAL (byte layer assumed, see `SReq.OK.hbytes/hdec`): ANY number of threads, each issuing
+    ANY list of sliced read requests on one proxy (lock `L`) or its `copy()`, under ANY schedule: once thread
+    `t` has finished, the arrays the driver's `results` assembles from the reads `t` ACTUALLY performed are,
+    request by request, NumPy basic indexing of the stored array: shape `sh`, element values `elemVal (l[i])`.
+    Composition of `nibabel_reads_correct` (C14) with `fileslice_threshold_eq_numpy` (C06). -/
+theorem thread_results_eq_numpy_partial (c : Cfg) (L : Nat) (file : List Byte) (hisz : 0 < c.isz)
+    (hlen : c.off + c.isz * c.shape.prod ≤ c.flen)
+    (reqs : Tid → List SReq) (hok : ∀ u, ∀ r ∈ reqs u, r.OK c file) (nh : Nat) (p0 : Nat → Nat)
+    (sched : List Tid) (t : Tid) :
+    let s0 := State.init (fun u => ((reqs u).map (fun r => plan c ⟨L, false, some r.idx⟩)).flatMap (·.prog)) nh p0
+    ((runS file s0 sched).threads t).prog = [] →
+    results ((reqs t).map (fun r => plan c ⟨L, false, some r.idx⟩)) (readsOf t (trace file s0 sched))
+      = (reqs t).map (fun r => Res.ok r.sh (r.l.map (elemVal c.isz))) := by
+  intro s0 hfin
+  have hplan : ∀ u, (reqs u).map (fun r => plan c ⟨L, false, some r.idx⟩)
+      = ((reqs u).map (fun r => slicedJob c r.d)).map (Job.plan L file) := by
+    intro u
+    rw [List.map_map]
+    apply List.map_congr_left
+    intro r hr
+    exact (slicedJob_plan c L file r.idx r.d (hok u r hr).hw (hok u r hr).hcalc).symm
+  have hprog : (fun u => ((reqs u).map (fun r => plan c ⟨L, false, some r.idx⟩)).flatMap (·.prog))
+      = (fun u => ((reqs u).map (fun r => slicedJob c r.d)).flatMap (fun j => j.pieces.flatMap (Piece.prog L))) := by
+    funext u
+    rw [hplan u, List.flatMap_map]
+    rfl
+  have key := results_eq_single_threaded L file (fun u => (reqs u).map (fun r => slicedJob c r.d)) nh p0 sched t
+  simp only [← hprog] at key
+  rw [hplan t, key hfin, List.map_map]
+  apply List.map_congr_left
+  intro r hr
+  have o := hok t r hr
+  simp only [Function.comp, slicedJob_bytes]
+  show finishSliced c r.d (segBytes file (natSegs r.d)) = _
+  exact sliced_result_eq_numpy_partial c file r.idx r.d Gen.skipThresh r.sh r.l o.hv hisz hlen o.hcalc o.hnp
+    o.hbytes o.hdec
+
+
 /-! ### what the lock buys: counterexamples for the broken disciplines (concrete 2-thread schedules) -/
 
 def cexFile : List Byte := [10, 11, 12, 13, 14, 15, 16, 17]
@@ -265,6 +610,20 @@ theorem copy_new_lock_counterexample :
     ((runS cexFile s0 [0, 0, 1, 1, 0, 0]).threads 0).prog = [] ∧
     dataProj 0 (trace cexFile s0 [0, 0, 1, 1, 0, 0]) = [.seek 0, .read 2 [14, 15]] ∧
     solo cexFile 0 p0 = [.seek 0, .read 2 [10, 11]] := by decide
+
+/-- OBSERVATION (outside property C14, which speaks of `copy()` only): `ArrayProxy.reshape()` builds a new
+    proxy over the SAME `file_like` that keeps the fresh lock of its constructor (`reshapeLock`).  Modelled as
+    a second lock on the same handle, a proxy and its reshaped twin do not exclude each other: thread 0
+    (through the proxy, lock 0) seeks to 0, thread 1 (through the reshaped proxy, lock 1) seeks to 4, thread 0
+    reads the bytes at 4. -/
+theorem reshape_new_lock_counterexample :
+    let p0 := lockedSegs 0 [(0, 2)]
+    let p1 := lockedSegs (reshapeLock 0 1) [(4, 2)]
+    let s0 := cexInit p0 p1
+    ((runS cexFile s0 [0, 0, 1, 1, 0, 0]).threads 0).prog = [] ∧
+    dataProj 0 (trace cexFile s0 [0, 0, 1, 1, 0, 0]) = [.seek 0, .read 2 [14, 15]] ∧
+    solo cexFile 0 p0 = [.seek 0, .read 2 [10, 11]] ∧
+    wf 0 0 false p1 = false := by decide
 
 /-! ### non-vacuity: the hypotheses of the theorems above are satisfiable by concrete, non-trivial values -/
 
@@ -322,5 +681,45 @@ example : wf 0 0 false (lockedSegs 0 [(1, 3)]) = true := by decide
 -- with the lock in place the schedule of `no_lock_counterexample` is harmless: thread 1 is blocked
 example : dataProj 0 (trace cexFile (cexInit (lockedSegs 0 [(0, 2)]) (lockedSegs 0 [(4, 2)]))
     [0, 0, 1, 0, 1, 0, 1, 1, 1, 1]) = [.seek 0, .read 2 [10, 11]] := by decide
+
+-- progress theorems: `exProgs` (3 threads incl. nested lock + persistent opener) is `good`, bounded by 3
+theorem exProgs_good : ∀ t, good 0 0 false (exProgs t) = true := by
+  intro t
+  match t with
+  | 0 => decide
+  | 1 => decide
+  | 2 => decide
+  | _ + 3 => rfl
+
+theorem exProgs_bounded : ∀ t, 3 ≤ t → exProgs t = [] := by
+  intro t ht
+  match t, ht with
+  | t + 3, _ => rfl
+
+-- no_deadlock: a state in which thread 1 is blocked and thread 2 unfinished; thread 0 can step
+example : ((runS cexFile (State.init exProgs 1) [0, 1, 1]).threads 1).prog ≠ [] := by decide
+-- all_threads_complete / round_robin_completes / fair_run_correct: 24 actions in total, 24 rounds suffice
+example : work 3 (State.init exProgs 1) = 24 := by decide
+example : ∀ t, ((runS cexFile (State.init exProgs 1) (List.replicate 24 (List.range 3)).flatten).threads t).prog = [] :=
+  round_robin_completes 0 cexFile exProgs 1 (fun _ => 0) 3 24 exProgs_good exProgs_bounded (by decide)
+-- a fair block need not be round-robin
+example : ∀ t, t < 3 → t ∈ [2, 7, 0, 0, 1] := by decide
+
+-- end-to-end theorems: a concrete request satisfying every hypothesis (incl. the byte-layer ones) on the
+-- driver's own test file `mkFile`: 3x2 little-endian u2 array at offset 4, request `[1:, 1]`
+def exCfg : Cfg := ⟨false, false, .F, 2, 4, 18, [3, 2]⟩
+def exReq : SReq :=
+  ⟨[.slice ⟨some 1, none, none⟩, .int 1],
+   ⟨[⟨10, 6⟩], [3], [.slice ⟨some 1, some 3, some 1⟩]⟩, [2], [4, 5]⟩
+
+theorem exReq_ok : exReq.OK exCfg (mkFile exCfg) := by
+  refine ⟨?_, by decide, rfl, by decide, by decide, by decide⟩
+  intro s hs
+  simp only [exReq, List.mem_cons, Nb.C06.IdxItem.slice.injEq, reduceCtorEq, List.not_mem_nil, or_false] at hs
+  subst hs; decide
+
+example : (0 < exCfg.isz ∧ exCfg.off + exCfg.isz * exCfg.shape.prod ≤ exCfg.flen) ∧
+    finishSliced exCfg exReq.d (segBytes (mkFile exCfg) (natSegs exReq.d)) = .ok [2] [4, 5] ∧
+    [4, 5].map (elemVal exCfg.isz) = [4, 5] := by decide
 
 end Nb.C14
